@@ -10,6 +10,7 @@
 // the canonical form (names, values, order, depth) and the old nodes of the target untouched.
 #include <sys/uio.h>
 #include <cstdlib>
+#include <ctime>
 #include <algorithm>
 #include "config.h"
 #include "array.h"
@@ -45,7 +46,7 @@ static const int NFMT = sizeof FMT / sizeof *FMT;
 struct FlagDef { const char *id; const char *str; };
 static const FlagDef FLG[] = { { "all", 0 }, { "strict", "" }, { "Esnw", "Esnw" }, { "Ef", "Ef" }, { "E", "E" }, { "Esc", "Esc" } };
 static const int NFLG = sizeof FLG / sizeof *FLG;
-static int nfmt(Tier t) { return t == Quick ? 7 : NFMT; }
+static int nfmt(Tier t) { return NFMT; }
 static int nflg(Tier t) { return t == Quick ? 3 : NFLG; }
 
 static void alphabet(int fi, Tier t, std::vector<uint8_t> &tok)
@@ -75,40 +76,43 @@ static std::string show(const uint8_t *p, size_t n)
 
 // ------------------------------------------------------------------ input source
 struct Src {
-	const uint8_t *p; size_t n, pos; int eofcode; bool ended; unsigned long calls, after;
-	Src(const uint8_t *d, size_t len, int e) : p(d), n(len), pos(0), eofcode(e), ended(false), calls(0), after(0) { }
+	const uint8_t *p; size_t n, pos; int eofcode; bool ended, ended_in_call; unsigned long calls, after, after_in_call, elem_calls;
+	mpt::input_parser_t next; void *narg;
+	Src(const uint8_t *d, size_t len, int e) : p(d), n(len), pos(0), eofcode(e), ended(false), ended_in_call(false), calls(0), after(0), after_in_call(0), elem_calls(0), next(0), narg(0) { }
 };
 static int src_getc(void *a)
 {
 	Src *s = (Src *) a;
 	++s->calls;
-	if (s->ended) { ++s->after; return s->eofcode; }
-	if (s->pos >= s->n) { s->ended = true; return s->eofcode; }
+	if (s->ended) { ++s->after; if (s->ended_in_call) ++s->after_in_call; return s->eofcode; }
+	if (s->pos >= s->n) { s->ended = s->ended_in_call = true; return s->eofcode; }
 	return s->p[s->pos++];
+}
+// element parser of the format, bracketed: which getc calls belong to one element
+static int next_element(void *a, mpt::parser_context *ctx, mpt::path *p)
+{
+	Src *s = (Src *) a;
+	s->ended_in_call = false; ++s->elem_calls;
+	return s->next(s->narg, ctx, p);
 }
 
 // ------------------------------------------------------------------ E1: recording handler + nesting model
+// The model is the stack of open sections, kept as the joined path text plus the lengths to fall back to.
 struct Rec {
-	std::vector<std::string> stack;
+	std::string open; std::vector<size_t> lens;     // path text of the innermost open section; depth = lens.size()
 	unsigned nev, nsect, nend, nopt, noptdata, ndata, maxdepth, beyond;
 	int fail_at;               // event number whose handler call reports failure (0 = never)
 	std::string kind, why;     // first nesting violation
 	std::string trace;
 	bool want_trace;
-	Rec() : nev(0), nsect(0), nend(0), nopt(0), noptdata(0), ndata(0), maxdepth(0), beyond(0), fail_at(0), want_trace(false) { }
+	uint64_t vsum;
+	Rec() : nev(0), nsect(0), nend(0), nopt(0), noptdata(0), ndata(0), maxdepth(0), beyond(0), fail_at(0), want_trace(false), vsum(0) { open.reserve(64); }
 };
-static void path_elements(const mpt::path *p, std::vector<std::string> &el)
+static std::string showpath(bool any, const char *b, size_t n, char sep)
 {
-	el.clear();
-	if (!p->len || !p->base) return;
-	const char *b = p->base + p->off;
-	size_t n = p->len - 1, from = 0;      // the last byte is the assign / separator terminator
-	for (size_t i = 0; i <= n; ++i) if (i == n || b[i] == p->sep) { el.push_back(std::string(b + from, i - from)); from = i + 1; }
-}
-static std::string join(const std::vector<std::string> &v)
-{
-	std::string s = "/";
-	for (size_t i = 0; i < v.size(); ++i) { if (i) s += "/"; s += show((const uint8_t *) v[i].data(), v[i].size()); }
+	if (!any) return "/";
+	std::string s; size_t from = 0;
+	for (size_t i = 0; i <= n; ++i) if (i == n || b[i] == sep) { s += "/" + show((const uint8_t *) b + from, i - from); from = i + 1; }
 	return s;
 }
 static int on_event(void *ctx, const mpt::path *p, const mpt::value *val, int last, int curr)
@@ -116,44 +120,54 @@ static int on_event(void *ctx, const mpt::path *p, const mpt::value *val, int la
 	int depth = mc::lib_depth; mc::lib_depth = 0;     // harness allocations are not library allocations
 	Rec &rc = *(Rec *) ctx;
 	++rc.nev;
-	std::vector<std::string> el;
-	path_elements(p, el);
-	std::string data; bool hasdata = false;
+	// reported path: elements joined by the separator; the last byte of the path area is the assign / separator terminator
+	bool any = p->len && p->base;
+	const char *pb = any ? p->base + p->off : "";
+	size_t pn = any ? p->len - 1 : 0;
+	bool hasdata = false; const char *db = 0; size_t dn = 0;
 	if (val) {
 		const struct iovec *vec = (const struct iovec *) val->_addr;
 		hasdata = true;
-		if (vec && vec->iov_len) data.assign((const char *) vec->iov_base, vec->iov_len);    // reads every byte (ASan)
+		if (vec) { db = (const char *) vec->iov_base; dn = vec->iov_len; }
+		for (size_t i = 0; i < dn; ++i) rc.vsum += (uint8_t) db[i];          // reads every byte (ASan)
 		if (vec && (p->flags & mpt::path::HasArray) && p->base) {
 			const mpt::buffer *b = ((const mpt::buffer *) p->base) - 1;
-			if (p->off + p->len + vec->iov_len > b->_used) ++rc.beyond;
+			if (p->off + p->len + dn > b->_used) ++rc.beyond;
 		}
 	}
-	if (rc.want_trace) rc.trace += fmt("  event %u: code=%d prev=%d path=%s%s%s\n", rc.nev, curr, last, join(el).c_str(), hasdata ? " data=" : "", hasdata ? show((const uint8_t *) data.data(), data.size()).c_str() : "");
-	auto prefix_ok = [&](size_t n) { if (el.size() < n || rc.stack.size() < n) return false; for (size_t i = 0; i < n; ++i) if (el[i] != rc.stack[i]) return false; return true; };
-	auto bad = [&](const char *k, const std::string &w) { if (rc.kind.empty()) { rc.kind = k; rc.why = fmt("event %u (code %d): ", rc.nev, curr) + w + "; open sections " + join(rc.stack) + ", reported path " + join(el); } };
+	if (rc.want_trace) rc.trace += fmt("  event %u: code=%d prev=%d path=%s%s%s\n", rc.nev, curr, last, showpath(any, pb, pn, p->sep).c_str(), hasdata ? " data=" : "", hasdata ? show((const uint8_t *) db, dn).c_str() : "");
+	size_t d = rc.lens.size();
+	// same: the reported path is exactly the open section; child: exactly one more element below it
+	auto same = [&]() { return d ? (any && pn == rc.open.size() && !memcmp(pb, rc.open.data(), pn)) : !any; };
+	auto child = [&]() {
+		if (!any) return false;
+		size_t from = 0;
+		if (d) { if (pn < rc.open.size() + 1 || memcmp(pb, rc.open.data(), rc.open.size()) || pb[rc.open.size()] != p->sep) return false; from = rc.open.size() + 1; }
+		return !memchr(pb + from, p->sep, pn - from); };
+	auto bad = [&](const char *k, const char *w) { if (rc.kind.empty()) { rc.kind = k; rc.why = fmt("event %u (code %d): %s; open section path %s (depth %zu), reported path %s", rc.nev, curr, w, showpath(d != 0, rc.open.data(), rc.open.size(), p->sep).c_str(), d, showpath(any, pb, pn, p->sep).c_str()); } };
 	switch (curr) {
 	case mpt::parser_context::Section:
 		++rc.nsect;
 		if (hasdata) bad("section-with-data", "section start carries a value");
-		if (el.size() != rc.stack.size() + 1 || !prefix_ok(rc.stack.size())) bad("section-path", "new section is not reported as a direct child of the open section");
-		else { rc.stack.push_back(el.back()); if (rc.stack.size() > rc.maxdepth) rc.maxdepth = rc.stack.size(); }
+		if (!child()) bad("section-path", "new section is not reported as a direct child of the open section");
+		else { rc.lens.push_back(rc.open.size()); rc.open.assign(pb, pn); if (rc.lens.size() > rc.maxdepth) rc.maxdepth = rc.lens.size(); }
 		break;
 	case mpt::parser_context::SectEnd:
 		++rc.nend;
-		if (rc.stack.empty()) bad("sectend-without-open", "section end while no section is open");
-		else if (el.size() != rc.stack.size() || !prefix_ok(rc.stack.size())) bad("sectend-path", "section end does not name the innermost open section");
-		else rc.stack.pop_back();
+		if (!d) bad("sectend-without-open", "section end while no section is open");
+		else if (!same()) bad("sectend-path", "section end does not name the innermost open section");
+		else { rc.open.resize(rc.lens.back()); rc.lens.pop_back(); }
 		break;
 	case mpt::parser_context::Option:
 	case mpt::parser_context::Option | mpt::parser_context::Data:
 		if (curr == mpt::parser_context::Option) ++rc.nopt; else ++rc.noptdata;
 		if (hasdata != (curr != mpt::parser_context::Option)) bad("option-data", "value presence does not match the event code");
-		if (el.size() != rc.stack.size() + 1 || !prefix_ok(rc.stack.size())) bad("option-path", "option is not reported inside the open section");
+		if (!child()) bad("option-path", "option is not reported inside the open section");
 		break;
 	case mpt::parser_context::Data:
 		++rc.ndata;
 		if (!hasdata) bad("option-data", "data event without value");
-		if (el.size() != rc.stack.size() || !prefix_ok(rc.stack.size())) bad("data-path", "anonymous value is not reported inside the open section");
+		if (!same()) bad("data-path", "anonymous value is not reported inside the open section");
 		break;
 	default:
 		bad("unknown-event", "event code is none of Section/SectEnd/Option/Data");
@@ -164,33 +178,60 @@ static int on_event(void *ctx, const mpt::path *p, const mpt::value *val, int la
 }
 
 // ------------------------------------------------------------------ E2: canonical tree form
-struct Snap { std::string canon; std::vector<const mpt::node *> nodes; bool ok; std::string why; };
+// canon: depth, name bytes, value bytes per node in document order (binary, length prefixed); never addresses
+struct Snap { std::string canon; std::vector<const mpt::node *> nodes; bool ok; const char *why; Snap() : ok(true), why("") { canon.reserve(128); nodes.reserve(8); } };
+static void put(std::string &s, const void *p, size_t n) { uint32_t l = (uint32_t) n; s.append((const char *) &l, 4); if (n) s.append((const char *) p, n); }
 static void walk(const mpt::node *parent, const mpt::node *first, Snap &s, int depth)
 {
 	const mpt::node *prev = 0;
 	for (const mpt::node *n = first; n; prev = n, n = n->next) {
 		if (depth > 12 || s.nodes.size() > 256) { s.ok = false; s.why = "walk does not end (cycle)"; return; }
 		if (!ledger_is_live(n)) { s.ok = false; s.why = "link to a node that is not allocated (any more)"; return; }
-		if (n->parent != parent || n->prev != prev) { s.ok = false; s.why = "parent/sibling links of a node are inconsistent"; return; }
+		// (the parent link of top-level nodes after a parse into an empty root is C14's finding, not judged here)
+		if ((depth && n->parent != parent) || n->prev != prev) { s.ok = false; s.why = "parent/sibling links of a node are inconsistent"; return; }
 		s.nodes.push_back(n);
+		s.canon.push_back((char) ('0' + depth));
 		const void *id = n->ident._len ? mpt::mpt_identifier_data(&n->ident) : 0;
-		s.canon += fmt("%d:", depth) + (id ? show((const uint8_t *) id, n->ident._len) : std::string("-"));
+		s.canon.push_back(id ? 'N' : '-'); put(s.canon, id, id ? n->ident._len : 0);
 		size_t len = 0; const char *data = mpt::mpt_node_data(n, &len);
-		if (data) s.canon += "=" + show((const uint8_t *) data, len);
-		s.canon += ";";
+		s.canon.push_back(data ? 'V' : '-'); put(s.canon, data, data ? len : 0);
 		walk(n, n->children, s, depth + 1);
 		if (!s.ok) return;
 	}
 }
-static Snap snapshot(const mpt::node *root) { Snap s; s.ok = true; walk(root, root->children, s, 0); return s; }
+static void snapshot(const mpt::node *root, Snap &s) { walk(root, root->children, s, 0); }
+static std::string pretty(const std::string &c)
+{
+	std::string o; size_t i = 0;
+	while (i + 10 <= c.size()) {
+		o += c[i++]; o += ':';
+		for (int k = 0; k < 2; ++k) { char t = c[i++]; uint32_t l; memcpy(&l, c.data() + i, 4); i += 4; if (t != '-') o += (k ? "=" : "") + show((const uint8_t *) c.data() + i, l); else if (!k) o += "-"; i += l; }
+		o += "; ";
+	}
+	return o;
+}
 
 static const char *SHAPE_TXT[] = { "", "x {\n y {\n z = 1\n }\n w = 2\n}\nv = 3\n", "x = 1\ny = 2\n" };
 static const char *SHAPE_ID[] = { "empty-root", "nested-root", "flat-root" };
 
 struct Case {
 	int fi, ni; const uint8_t *in; size_t n; const char *cls; int eofcode;
+	bool heavy;         // long inputs: fewer repetitions
 	std::string desc() const { return fmt("format %s (%s), name flags %s, input %s (%zu bytes), end-of-input code %d", FMT[fi].id, FMT[fi].str ? FMT[fi].str : "NULL", FLG[ni].id, show(in, n).c_str(), n, eofcode); }
+	std::string sig(const char *entry, const char *what) const { return std::string(entry) + "|" + FMT[fi].family + "|" + cls + "|" + what; }
 };
+// counters are kept in an array and handed to the engine when the job ends
+enum Cn { NONTRIVIAL, CFG_OK, CFG_FAIL, CFG_OK_EV, CFG_FAIL_EV, CFG_DEPTH2, CFG_FAIL_EARLY, CFG_OPEN_END, CFG_ILL_FAIL, CFG_BEYOND, CFG_LINE, EV_SECT, EV_END, EV_OPT, EV_OPTDATA, EV_DATA,
+          GETC_END, GETC_EARLY, GETC_REPOLL, HANDLER_FAIL, NODE_REFUSES_ACCEPTED, NODE_FAIL0, NODE_FAIL1, NODE_FAIL2, NODE_OK0, NODE_OK1, NODE_OK2, NODE_NEW0, NODE_NEW1, NODE_NEW2, ODDQUOTE, LONG_OK, LONG_FAIL, ERR_EOF_OK, ERR_EOF_FAIL, NCN };
+static const char *CNAME[NCN] = { "nontrivial", "cfg:success", "cfg:failure", "cfg:success with events", "cfg:failure after events", "cfg:success, nesting depth>=2", "cfg:failure before end of input",
+	"cfg:success with sections left open at end of input (not flagged)", "cfg:ill-nested events before a reported failure (not flagged)", "cfg:value length exceeds saved characters (not flagged)", "cfg:line counter differs from consumed newlines (not flagged)",
+	"event:Section", "event:SectEnd", "event:Option", "event:Option|Data", "event:Data",
+	"getc:end of input reached", "getc:stopped before end of input", "getc:end of input polled once more by the following element call (not flagged)", "cfg:handler failure injected",
+	"node:storing fails although the parser accepted (not flagged)", "node:failure, empty-root", "node:failure, nested-root", "node:failure, flat-root", "node:success, empty-root", "node:success, nested-root", "node:success, flat-root",
+	"node:success with new elements, empty-root", "node:success with new elements, nested-root", "node:success with new elements, flat-root", "input:odd number of quote characters", "long:accepted", "long:refused",
+	"readerror:accepted (not flagged)", "readerror:refused" };
+static uint64_t g_cn[NCN];
+static uint64_t g_ok_by_fmt[NFMT];
 
 static void ledger_housekeeping()
 {
@@ -200,12 +241,12 @@ static void ledger_housekeeping()
 static void setup_ctx(mpt::parser_context &ctx, Src &src, int ni)
 {
 	ctx.src.getc = src_getc; ctx.src.arg = &src; ctx.src.line = 1;
+	ctx.prev = mpt::parser_context::Section;     // as mpt_parse_node starts
 	mpt::mpt_parse_accept(&ctx.name, FLG[ni].str);
 }
 // returns number of events, <0 when a violation was reported
 static int run_config(Run &r, const Case &c, int fail_at, int *result)
 {
-	std::string sigbase = std::string("parse_config|") + FMT[c.fi].family + "|" + c.cls + "|";
 	mpt::parser_format pf;
 	int type = mpt::mpt_parse_format(&pf, FMT[c.fi].str);
 	mpt::input_parser_t next = mpt::mpt_parse_next_fcn(type);
@@ -217,46 +258,50 @@ static int run_config(Run &r, const Case &c, int fail_at, int *result)
 	ledger_housekeeping();
 	size_t lbase = ledger_live();
 	asan_error();
-	r.hint((sigbase + (fail_at ? "handler-fails" : "run")).c_str());
+	r.hint(c.sig("parse_config", fail_at ? "handler-fails" : "run").c_str());
 	++r.transitions;
-	int ret = LIB(mpt::mpt_parse_config(next, &pf, &ctx, on_event, &rec));
+	src.next = next; src.narg = &pf;
+	int ret = LIB(mpt::mpt_parse_config(next_element, &src, &ctx, on_event, &rec));
 	bool asan = asan_error();
 	size_t live = ledger_live();
 	if (result) *result = ret;
 	if (r.replaying) r.note("mpt_parse_config%s -> %d, line %zu, getc calls %lu (%lu after end of input), consumed %zu of %zu bytes, events:\n%s", fail_at ? fmt(" (handler fails at event %d)", fail_at).c_str() : "", ret, ctx.src.line, src.calls, src.after, src.pos, src.n, rec.trace.c_str());
-	std::string d = c.desc() + fmt(": mpt_parse_config returned %d after %u events", ret, rec.nev);
-	if (fail_at) d += fmt(" (handler reports failure at event %d)", fail_at);
-	if (asan) { r.violation(sigbase + "asan", d + "; AddressSanitizer reported an invalid memory access"); return -1; }
-	if (src.after) { r.violation(sigbase + "getc-after-end", d + fmt("; the source was asked %lu more time(s) after it had reported end of input", src.after)); return -1; }
-	if (live != lbase) { r.violation(sigbase + "leak", d + fmt("; %zu allocation(s) of the parser are still live after it returned", live - lbase)); return -1; }
-	if (ret > 0) { r.violation(sigbase + "positive-result", d + "; neither success (0) nor an error"); return -1; }
-	if (fail_at && (int) rec.nev >= fail_at && ret >= 0) { r.violation(sigbase + "handler-error-lost", d + "; the failing handler call is not reported as an error"); return -1; }
-	if (!fail_at) {
-		if (ret == 0 && !rec.kind.empty()) { r.violation(sigbase + "nesting:" + rec.kind, d + "; successful parse with an ill-nested event sequence: " + rec.why); return -1; }
-		if (ret == 0) {
-			r.count("cfg:success");
-			if (rec.maxdepth >= 2) r.count("cfg:success, nesting depth>=2");
-			if (!rec.stack.empty()) r.count("cfg:success with sections left open at end of input (not flagged)");
-			if (rec.nev) r.count("cfg:success with events");
-		} else {
-			r.count("cfg:failure");
-			if (rec.nev) r.count("cfg:failure after events");
-			if (!rec.kind.empty()) r.count("cfg:ill-nested events before a reported failure (not flagged)");
-			if (!src.ended) r.count("cfg:failure before end of input");
-		}
-		r.count("event:Section", rec.nsect); r.count("event:SectEnd", rec.nend); r.count("event:Option", rec.nopt);
-		r.count("event:Option|Data", rec.noptdata); r.count("event:Data", rec.ndata);
-		if (rec.beyond) r.count("cfg:value length exceeds saved characters (not flagged)");
-		size_t nl = 0; for (size_t i = 0; i < src.pos; ++i) if (c.in[i] == '\n') ++nl;
-		if (ctx.src.line != 1 + nl) r.count("cfg:line counter differs from consumed newlines (not flagged)");
-		if (src.ended) r.count("getc:end of input reached"); else r.count("getc:stopped before end of input");
+	auto d = [&]() { return c.desc() + fmt(": mpt_parse_config returned %d after %u events", ret, rec.nev) + (fail_at ? fmt(" (handler reports failure at event %d)", fail_at) : std::string()); };
+	if (asan) { r.violation(c.sig("parse_config", "asan"), d() + "; AddressSanitizer reported an invalid memory access"); return -1; }
+	if (src.after_in_call) { r.violation(c.sig("parse_config", "getc-after-end"), d() + fmt("; one element call asked the source %lu more time(s) after the source had reported end of input to it", src.after_in_call)); return -1; }
+	if (src.after > 1) { r.violation(c.sig("parse_config", "getc-after-end"), d() + fmt("; the source was asked %lu more times after it had reported end of input", src.after)); return -1; }
+	if (live != lbase) { r.violation(c.sig("parse_config", "leak"), d() + fmt("; %zu allocation(s) of the parser are still live after it returned", live - lbase)); return -1; }
+	if (ret > 0) { r.violation(c.sig("parse_config", "positive-result"), d() + "; neither success (0) nor an error"); return -1; }
+	if (fail_at) {
+		++g_cn[HANDLER_FAIL];
+		if ((int) rec.nev >= fail_at && ret >= 0) { r.violation(c.sig("parse_config", "handler-error-lost"), d() + "; the failing handler call is not reported as an error"); return -1; }
+		if ((int) rec.nev > fail_at) { r.violation(c.sig("parse_config", "continues-after-handler-error"), d() + "; further events were delivered after the handler had failed"); return -1; }
+		return (int) rec.nev;
 	}
+	if (ret == 0 && !rec.kind.empty()) { r.violation(c.sig("parse_config", ("nesting:" + rec.kind).c_str()), d() + "; successful parse with an ill-nested event sequence: " + rec.why); return -1; }
+	if (ret == 0) {
+		++g_cn[CFG_OK]; ++g_ok_by_fmt[c.fi];
+		if (rec.maxdepth >= 2) ++g_cn[CFG_DEPTH2];
+		if (!rec.lens.empty()) ++g_cn[CFG_OPEN_END];
+		if (rec.nev) ++g_cn[CFG_OK_EV];
+	} else {
+		++g_cn[CFG_FAIL];
+		if (rec.nev) ++g_cn[CFG_FAIL_EV];
+		if (!rec.kind.empty()) ++g_cn[CFG_ILL_FAIL];
+		if (!src.ended) ++g_cn[CFG_FAIL_EARLY];
+	}
+	if (c.eofcode == -1) ++g_cn[ret == 0 ? ERR_EOF_OK : ERR_EOF_FAIL];
+	g_cn[EV_SECT] += rec.nsect; g_cn[EV_END] += rec.nend; g_cn[EV_OPT] += rec.nopt; g_cn[EV_OPTDATA] += rec.noptdata; g_cn[EV_DATA] += rec.ndata;
+	if (rec.beyond) ++g_cn[CFG_BEYOND];
+	size_t nl = 0; for (size_t i = 0; i < src.pos; ++i) if (c.in[i] == '\n') ++nl;
+	if (ctx.src.line != 1 + nl) ++g_cn[CFG_LINE];
+	++g_cn[src.ended ? GETC_END : GETC_EARLY];
+	if (src.after) ++g_cn[GETC_REPOLL];
 	return (int) rec.nev;
 }
-// returns <0 when a violation was reported
-static int run_node(Run &r, const Case &c, int shape, bool *failed_with_tree)
+// returns <0 when a violation was reported; *result = return value of mpt_parse_node
+static int run_node(Run &r, const Case &c, int shape, int cfg_result, int *result)
 {
-	std::string sigbase = std::string("parse_node|") + FMT[c.fi].family + "|" + c.cls + "|";
 	ledger_housekeeping();
 	size_t lbase = ledger_live();
 	asan_error();
@@ -266,47 +311,49 @@ static int run_node(Run &r, const Case &c, int shape, bool *failed_with_tree)
 		Src s0((const uint8_t *) SHAPE_TXT[shape], strlen(SHAPE_TXT[shape]), -2);
 		mpt::parser_context c0; c0.src.getc = src_getc; c0.src.arg = &s0; c0.src.line = 1;
 		if (LIB(mpt::mpt_parse_node(root, &c0, 0)) < 0 || !root->children) { r.violation("HARNESS|shape-setup", c.desc()); return -1; }
-		for (mpt::node *n = root->children; n; n = n->next) n->parent = root;     // (C14: first parse leaves the parent link unset)
+		for (mpt::node *n = root->children; n; n = n->next) n->parent = root;     // (C14: a parse into an empty root leaves the parent link unset)
 	}
-	Snap before = snapshot(root);
+	Snap before; snapshot(root, before);
 	if (!before.ok) { r.violation("HARNESS|shape-setup", c.desc() + ": " + before.why); return -1; }
 	Src src(c.in, c.n, c.eofcode);
 	mpt::parser_context ctx;
 	setup_ctx(ctx, src, c.ni);
-	r.hint((sigbase + SHAPE_ID[shape]).c_str());
+	r.hint(c.sig("parse_node", SHAPE_ID[shape]).c_str());
 	++r.transitions;
 	int ret = LIB(mpt::mpt_parse_node(root, &ctx, FMT[c.fi].str));
 	bool asan = asan_error();
-	std::string d = c.desc() + fmt(": mpt_parse_node into %s returned %d", SHAPE_ID[shape], ret);
-	if (r.replaying) r.note("mpt_parse_node(%s) -> %d, line %zu, getc calls %lu (%lu after end), consumed %zu of %zu; tree before: %s", SHAPE_ID[shape], ret, ctx.src.line, src.calls, src.after, src.pos, src.n, before.canon.c_str());
-	if (asan) { r.violation(sigbase + "asan", d + "; AddressSanitizer reported an invalid memory access"); return -1; }
-	if (src.after) { r.violation(sigbase + "getc-after-end", d + fmt("; the source was asked %lu more time(s) after it had reported end of input", src.after)); return -1; }
+	if (result) *result = ret;
+	auto d = [&]() { return c.desc() + fmt(": mpt_parse_node into %s returned %d", SHAPE_ID[shape], ret); };
+	if (r.replaying) r.note("mpt_parse_node(%s) -> %d, line %zu, getc calls %lu (%lu after end), consumed %zu of %zu; tree before: %s", SHAPE_ID[shape], ret, ctx.src.line, src.calls, src.after, src.pos, src.n, pretty(before.canon).c_str());
+	if (asan) { r.violation(c.sig("parse_node", "asan"), d() + "; AddressSanitizer reported an invalid memory access"); return -1; }
+	if (src.after > 1) { r.violation(c.sig("parse_node", "getc-after-end"), d() + fmt("; the source was asked %lu more times after it had reported end of input", src.after)); return -1; }
+	if (ret > 0) { r.violation(c.sig("parse_node", "positive-result"), d() + "; neither success (0) nor an error"); return -1; }
+	// "a failed parse reports an error": the same input, format and flags made mpt_parse_config fail
+	if (cfg_result < 0 && ret >= 0) { r.violation(c.sig("parse_node", "error-not-reported"), d() + fmt(" although parsing the same input fails with %d", cfg_result)); return -1; }
+	// (a different error code is fine: storing an element may fail before the parser reaches its own error)
+	if (cfg_result >= 0 && ret < 0) ++g_cn[NODE_REFUSES_ACCEPTED];
+	Snap after;
 	if (ret < 0) {
 		bool gone = false;
 		for (const mpt::node *n : before.nodes) if (!ledger_is_live(n)) gone = true;
-		if (gone) { r.violation(sigbase + "failed-parse-changed-tree", d + "; nodes of the target tree were released by the failed parse"); return -1; }
-		Snap after = snapshot(root);
-		if (r.replaying) r.note("tree after: %s", after.canon.c_str());
-		if (!after.ok) { r.violation(sigbase + "failed-parse-changed-tree", d + "; target tree is damaged: " + after.why); return -1; }
-		if (after.canon != before.canon || after.nodes != before.nodes) { r.violation(sigbase + "failed-parse-changed-tree", d + "; target tree was {" + before.canon + "}, is {" + after.canon + "}"); return -1; }
-		// how much had been built before the failure: leak check below proves it was all released
-		r.count(std::string("node:failure, ") + SHAPE_ID[shape]);
+		if (gone) { r.violation(c.sig("parse_node", "failed-parse-changed-tree"), d() + "; nodes of the target tree were released by the failed parse"); return -1; }
+		snapshot(root, after);
+		if (r.replaying) r.note("tree after: %s", pretty(after.canon).c_str());
+		if (asan_error() || !after.ok) { r.violation(c.sig("parse_node", "failed-parse-changed-tree"), d() + "; target tree is damaged: " + after.why); return -1; }
+		if (after.canon != before.canon || after.nodes != before.nodes) { r.violation(c.sig("parse_node", "failed-parse-changed-tree"), d() + "; target tree was {" + pretty(before.canon) + "}, is {" + pretty(after.canon) + "}"); return -1; }
+		++g_cn[NODE_FAIL0 + shape];
 	} else {
-		Snap after = snapshot(root);
-		if (asan_error() || !after.ok) { r.violation(sigbase + "result-tree-broken", d + "; resulting tree: " + (after.ok ? "walking it touches released memory" : after.why)); return -1; }
-		r.count(std::string("node:success, ") + SHAPE_ID[shape]);
-		if (after.nodes.size() > before.nodes.size()) r.count(std::string("node:success with new elements, ") + SHAPE_ID[shape]);
-	}
-	size_t mid = ledger_live() - lbase;    // root + tree
-	if (failed_with_tree) *failed_with_tree = ret < 0;
-	if (ret < 0 && mid != 1 + 2 * before.nodes.size() && mid != 1 + before.nodes.size()) {
-		// every node of the shapes owns at most one metatype allocation: anything else is a leftover of the temporary tree
+		snapshot(root, after);
+		if (r.replaying) r.note("tree after: %s", pretty(after.canon).c_str());
+		if (asan_error() || !after.ok) { r.violation(c.sig("parse_node", "result-tree-broken"), d() + "; resulting tree: " + (after.ok ? "walking it touches released memory" : after.why)); return -1; }
+		++g_cn[NODE_OK0 + shape];
+		if (after.nodes.size() > before.nodes.size()) ++g_cn[NODE_NEW0 + shape];
 	}
 	LIB(mpt::mpt_node_clear(root));
 	bool asan2 = asan_error();
 	size_t live = ledger_live();
-	if (asan2) { r.violation(sigbase + "asan", d + "; clearing the target afterwards: AddressSanitizer reported an invalid memory access"); return -1; }
-	if (live != lbase + 1) { r.violation(sigbase + "leak", d + fmt("; %zu allocation(s) survive clearing the target tree", live - lbase - 1)); free(root); return -1; }
+	if (asan2) { r.violation(c.sig("parse_node", "asan"), d() + "; clearing the target afterwards: AddressSanitizer reported an invalid memory access"); return -1; }
+	if (live != lbase + 1) { r.violation(c.sig("parse_node", "leak"), d() + fmt("; %zu allocation(s) survive clearing the target tree", live - lbase - 1)); free(root); return -1; }
 	free(root);
 	return 0;
 }
@@ -316,8 +363,11 @@ static void warmup()
 {
 	if (g_warm) return;
 	g_warm = true;
-	const char *t = "a {\n b = 1\n}\n\"c\" = 'd'\n";
-	for (int k = 0; k < 2; ++k) {
+	// lazily created library singletons (type registry, traits of long text values ..) must not count as leaks
+	std::string txt = "a {\n b = 1\n}\n\"c\" = 'd'\ne = " + std::string(300, 'x') + "\n";
+	std::string txt2 = "a {\n b = 1\n}\n\"c\" = 'd'\n";
+	for (int k = 0; k < 3; ++k) {
+		const char *t = k ? txt2.c_str() : txt.c_str();
 		Src s((const uint8_t *) t, strlen(t), -2);
 		mpt::parser_context c0; c0.src.getc = src_getc; c0.src.arg = &s; c0.src.line = 1;
 		mpt::node *w = mpt::mpt_node_new(0);
@@ -327,32 +377,37 @@ static void warmup()
 }
 
 // one input through every entry point
-static void run_case(Run &r, const Case &c)
+static void run_case(Run &r, const Case &c, bool fail_first = false)
 {
 	warmup();
 	++r.states;
 	if (r.replaying) r.note("%s", c.desc().c_str());
-	int ret = 0;
+	int ret = 0, nret = 0;
 	int nev = run_config(r, c, 0, &ret);
 	if (nev < 0) return;
-	if (c.n > 255) r.count(ret < 0 ? "long:refused" : "long:accepted");
-	// the handler refuses the last event it was given
-	if (nev > 0 && run_config(r, c, nev, 0) < 0) return;
-	if (nev > 1 && run_config(r, c, 1, 0) < 0) return;
-	bool failed = false;
-	if (run_node(r, c, 0, &failed) < 0) return;
-	if (run_node(r, c, 1, &failed) < 0) return;
-	if (failed && nev > 0) r.count("nontrivial");
-	if (nev > 0 && run_node(r, c, 2, &failed) < 0) return;
+	if (c.n > 255) ++g_cn[ret < 0 ? LONG_FAIL : LONG_OK];
+	// the handler refuses the last event it is given (and, for seeds/mutations, the first)
+	if (!c.heavy && nev > 0 && run_config(r, c, nev, 0) < 0) return;
+	if (fail_first && nev > 1 && run_config(r, c, 1, 0) < 0) return;
+	if (run_node(r, c, 0, ret, &nret) < 0) return;
+	if (run_node(r, c, 1, ret, &nret) < 0) return;
+	if (nret < 0 && nev > 0) ++g_cn[NONTRIVIAL];
+	if (!c.heavy && nev > 0 && run_node(r, c, 2, ret, &nret) < 0) return;
 	size_t q = 0; for (size_t i = 0; i < c.n; ++i) if (c.in[i] == '"' || c.in[i] == '\'' || c.in[i] == '`') ++q;
-	if (q & 1) r.count("input:odd number of quote characters");
+	if (q & 1) ++g_cn[ODDQUOTE];
 }
 
 // ------------------------------------------------------------------ jobs
-//   str:<fmt>:<flags>:<L>:<first token index | ->      all strings of length <= L starting with that token ('-': the empty string)
-//   long:<fmt>                                           long-token shapes, all flag sets
-//   mut:<fmt>:<flags>                                    seed document with <= 2 token mutations
-static int maxlen(Tier t, int fi, int ni) { if (t == Quick) return 4; return (ni == 0 && (fi == 0 || fi == 3 || fi == 5)) ? 6 : 5; }
+//   str:<fmt>:<flags>:<L>:<first token index | ->     all strings of length <= L starting with that token ('-': the empty string)
+//   err:<fmt>:<flags>                                   all strings of length <= 3, the source ends with a read error (-1) instead of end of file (-2)
+//   long:<fmt>:<flags>                                  long-token shapes
+//   mut:<fmt>:<flags>                                   seed document with <= 2 token mutations
+static int maxlen(Tier t, int fi, int ni)
+{
+	if (t == Quick) return 4;
+	if (ni == 0 && (fi == 0 || fi == 3)) return 6;
+	return ni < 3 ? 5 : 4;
+}
 void mc_jobs(Tier t, std::vector<std::string> &jobs)
 {
 	for (int fi = 0; fi < nfmt(t); ++fi) {
@@ -360,26 +415,26 @@ void mc_jobs(Tier t, std::vector<std::string> &jobs)
 		for (int ni = 0; ni < nflg(t); ++ni) {
 			jobs.push_back(fmt("str:%d:%d:%d:-", fi, ni, maxlen(t, fi, ni)));
 			for (size_t k = 0; k < tok.size(); ++k) jobs.push_back(fmt("str:%d:%d:%d:%zu", fi, ni, maxlen(t, fi, ni), k));
+			jobs.push_back(fmt("err:%d:%d", fi, ni));
 		}
 	}
-	for (int fi = 0; fi < NFMT; ++fi) jobs.push_back(fmt("long:%d", fi));
+	for (int fi = 0; fi < nfmt(t); ++fi) for (int ni = 0; ni < (t == Quick ? 2 : NFLG); ++ni) jobs.push_back(fmt("long:%d:%d", fi, ni));
 	for (int fi = 0; fi < NFMT; ++fi) for (int ni = 0; ni < nflg(t); ++ni) jobs.push_back(fmt("mut:%d:%d", fi, ni));
 }
 
 // ---- long tokens
-static const size_t LONGLEN[] = { 254, 255, 256, 257, 65534, 65535, 65536, 65537 };
+static const size_t LONGLEN[] = { 255, 256, 65535, 65536, 254, 257, 65534, 65537 };
 enum { P_SECT, P_OPT, P_VAL, P_QVAL, P_COMMENT, P_ANON, NPOS };
 static const char *POSN[] = { "section name", "option name", "value", "quoted value", "comment", "anonymous value" };
-static void seed_tokens(int fi, std::vector<std::string> &T);
+static uint64_t g_long[NPOS][2];
 
-static void body_long(Run &r, Ctx &x, int fi)
+static void body_long(Run &r, Ctx &x, int fi, int ni)
 {
 	mpt::parser_format f; mpt::mpt_parse_format(&f, FMT[fi].str);
-	int ni = (int) x.choose(NFLG);
 	int pos = (int) x.choose(NPOS);
-	size_t len = LONGLEN[x.choose(8)];
-	int fill = (int) x.choose(3);          // 'a' run / alternating "a " (inner blanks) / 0xE9 run
-	int tail = (int) x.choose(3);          // complete document / end of input right behind the token / token then newline only
+	size_t len = LONGLEN[x.choose(r.tier == Quick ? 4 : 8)];
+	int fill = (int) x.choose(r.tier == Quick ? 2 : 3);   // 'a' run / alternating "a " (inner blanks) / 0xE9 run
+	int tail = (int) x.choose(3);          // complete document / end of input right behind the token / token then end of line only
 	std::string fam = FMT[fi].family;
 	std::string big;
 	for (size_t i = 0; i < len; ++i) big += fill == 0 ? 'a' : (fill == 1 ? ((i & 1) && i + 1 < len ? ' ' : 'a') : (char) 0xE9);
@@ -406,11 +461,10 @@ static void body_long(Run &r, Ctx &x, int fi)
 		}
 		if (tail == 0) { if (fam == "pre") doc += E + "\n"; else if (FMT[fi].id == std::string("encsame")) doc += S + "\n"; }
 	}
-	std::string cls = len > 65000 ? "long>65535" : "long>255";
-	if (len <= 255) cls = "long<=255";
-	Case c = { fi, ni, (const uint8_t *) doc.data(), doc.size(), cls.c_str(), -2 };
-	r.count(std::string("long:") + POSN[pos] + (len > 65000 ? " ~65536" : " ~256"));
-	if (r.samples.size() < 6 && pos == P_VAL && len == 65536 && ni == 0 && fill == 0 && tail == 0) r.sample(fmt("long token: format %s, %s of %zu bytes, document %s", FMT[fi].id, POSN[pos], len, show(c.in, c.n).c_str()));
+	const char *cls = len > 65000 ? "long>65535" : "long>255";
+	Case c = { fi, ni, (const uint8_t *) doc.data(), doc.size(), cls, -2, len > 1000 };
+	++g_long[pos][len > 65000];
+	if (pos == P_VAL && len == 65536 && ni == 0 && fill == 0 && tail == 0) r.sample(fmt("long token: format %s, %s of %zu bytes, document %s", FMT[fi].id, POSN[pos], len, show(c.in, c.n).c_str()));
 	run_case(r, c);
 }
 
@@ -430,7 +484,12 @@ static void seed_tokens(int fi, std::vector<std::string> &T)
 		if (comment) { T.push_back(" "); T.push_back(C); T.push_back("a"); }
 		T.push_back("\n");
 	};
-	if (fam == "pre") {
+	if (fam == "pre" && !f.assign) {          // sections only
+		T.push_back("a"); T.push_back(" "); T.push_back(S); T.push_back("\n");
+		T.push_back("c"); T.push_back(S); T.push_back("\n"); T.push_back("-"); T.push_back("1"); T.push_back(S); T.push_back(E);
+		T.push_back(E); T.push_back("\n"); T.push_back(E); T.push_back(" "); T.push_back(C); T.push_back("a"); T.push_back("\n");
+		T.push_back("e"); T.push_back(S); T.push_back(E); T.push_back("\n");
+	} else if (fam == "pre") {
 		T.push_back("a"); T.push_back(" "); T.push_back(S); T.push_back("\n");
 		opt("b", { "1" }, false);
 		T.push_back("c"); T.push_back(S); T.push_back("\n");
@@ -473,28 +532,31 @@ static void mutate(std::vector<std::string> &T, size_t m, const std::vector<uint
 	else if (m < 3 * n) T.resize(m - 2 * n);
 	else { m -= 3 * n; T[m / tok.size()] = std::string(1, (char) tok[m % tok.size()]); }
 }
+static uint64_t g_mut[3], g_seed_ok, g_seed_refused;
 static void body_mut(Run &r, Ctx &x, int fi, int ni, const std::vector<uint8_t> &tok)
 {
 	std::vector<std::string> T; seed_tokens(fi, T);
-	bool repl2 = r.tier == Thorough;
-	size_t m1 = x.choose(1 + nmut(T.size(), tok.size(), true));
+	// quick: a replacement is never combined with a second mutation
+	size_t n0 = T.size();
+	size_t m1 = x.choose(1 + nmut(n0, tok.size(), true));
 	int muts = 0;
 	if (m1) {
 		mutate(T, m1 - 1, tok); ++muts;
-		if (!T.empty()) { size_t m2 = x.choose(1 + nmut(T.size(), tok.size(), repl2)); if (m2) { mutate(T, m2 - 1, tok); ++muts; } }
+		if (!T.empty() && (r.tier == Thorough || m1 <= 3 * n0)) { size_t m2 = x.choose(1 + nmut(T.size(), tok.size(), r.tier == Thorough)); if (m2) { mutate(T, m2 - 1, tok); ++muts; } }
 	}
 	int eofcode = m1 ? -2 : (x.choose(2) ? -1 : -2);
 	std::string doc; for (auto &s : T) doc += s;
-	Case c = { fi, ni, (const uint8_t *) doc.data(), doc.size(), "plain", eofcode };
-	if (!muts) {
-		int ret = -1; Src s(c.in, c.n, -2);
-		mpt::parser_format pf; mpt::input_parser_t next = mpt::mpt_parse_next_fcn(mpt::mpt_parse_format(&pf, FMT[fi].str));
-		mpt::parser_context ctx; setup_ctx(ctx, s, ni); Rec rec;
-		ret = mpt::mpt_parse_config(next, &pf, &ctx, on_event, &rec);
-		if (ni == 0 && eofcode == -2) { r.count(ret == 0 ? "mut:seed document accepted" : "mut:seed document refused"); if (ret) r.count(fmt("mut:seed refused for format %s (%d)", FMT[fi].id, ret)); r.sample(fmt("seed document for format %s: %s", FMT[fi].id, show(c.in, c.n).c_str())); }
+	Case c = { fi, ni, (const uint8_t *) doc.data(), doc.size(), "plain", eofcode, false };
+	if (!muts && eofcode == -2) {
+		uint64_t ok = g_cn[CFG_OK];
+		run_case(r, c, true);
+		if (g_cn[CFG_OK] > ok) ++g_seed_ok; else { ++g_seed_refused; r.count(fmt("mut:seed document refused, format %s flags %s (not flagged)", FMT[fi].id, FLG[ni].id)); }
+		if (ni == 0) r.sample(fmt("seed document for format %s: %s", FMT[fi].id, show(c.in, c.n).c_str()));
+		++g_mut[0];
+		return;
 	}
-	r.count(fmt("mut:%d mutation(s)", muts));
-	run_case(r, c);
+	++g_mut[muts];
+	run_case(r, c, true);
 }
 
 struct Job { std::string kind; int fi, ni, L, first; std::vector<uint8_t> tok; };
@@ -513,35 +575,50 @@ static Job parse_job(Run &r, const std::string &job)
 }
 static void body(Run &r, Ctx &x, const Job &j)
 {
-	if (j.kind == "str") {
+	if (j.kind == "str" || j.kind == "err") {
 		uint8_t buf[16]; size_t n = 0;
-		if (j.first >= 0) {
+		if (j.kind == "err") { while (n < 3) { uint64_t c = x.choose(j.tok.size() + 1); if (!c) break; buf[n++] = j.tok[c - 1]; } }
+		else if (j.first >= 0) {
 			buf[n++] = j.tok[j.first];
 			while ((int) n < j.L) { uint64_t c = x.choose(j.tok.size() + 1); if (!c) break; buf[n++] = j.tok[c - 1]; }
 		}
 		// exactly sized copy: nothing behind the input is readable
 		uint8_t *in = (uint8_t *) malloc(n ? n : 1); memcpy(in, buf, n);
-		Case c = { j.fi, j.ni, in, n, "plain", -2 };
-		if (n == 4 && j.first == 0) r.sample(fmt("format %s flags %s input %s", FMT[j.fi].id, FLG[j.ni].id, show(in, n).c_str()));
+		Case c = { j.fi, j.ni, in, n, "plain", j.kind == "err" ? -1 : -2, false };
+		if (n == 4 && j.first == 0 && j.ni == 0 && buf[1] == 'a') r.sample(fmt("format %s flags %s input %s", FMT[j.fi].id, FLG[j.ni].id, show(in, n).c_str()));
 		run_case(r, c);
 		free(in);
 	}
-	else if (j.kind == "long") body_long(r, x, j.fi);
+	else if (j.kind == "long") body_long(r, x, j.fi, j.ni);
 	else body_mut(r, x, j.fi, j.ni, j.tok);
 }
 static const char *required[] = {
 	"nontrivial", "cfg:success", "cfg:failure", "cfg:success with events", "cfg:failure after events", "cfg:success, nesting depth>=2", "cfg:failure before end of input",
-	"event:Section", "event:SectEnd", "event:Option", "event:Option|Data", "event:Data",
-	"getc:end of input reached", "getc:stopped before end of input",
+	"event:Section", "event:SectEnd", "event:Option", "event:Option|Data", "event:Data", "cfg:handler failure injected",
+	"getc:end of input reached", "getc:stopped before end of input", "readerror:refused",
 	"node:failure, empty-root", "node:failure, nested-root", "node:failure, flat-root", "node:success, nested-root", "node:success with new elements, nested-root", "node:success with new elements, flat-root",
 	"input:odd number of quote characters", "mut:seed document accepted", "mut:2 mutation(s)",
 	"long:section name ~256", "long:option name ~256", "long:value ~256", "long:quoted value ~65536", "long:section name ~65536", "long:option name ~65536", "long:value ~65536", "long:comment ~65536", "long:anonymous value ~65536",
-	"long:accepted", "long:refused" };
+	"long:accepted", "long:refused",
+	"cfg:success, family pre", "cfg:success, family sep", "cfg:success, family enc", "cfg:success, family opt" };
+static void flush_counters(Run &r)
+{
+	for (int i = 0; i < NCN; ++i) if (g_cn[i]) { r.count(CNAME[i], g_cn[i]); g_cn[i] = 0; }
+	for (int i = 0; i < NFMT; ++i) if (g_ok_by_fmt[i]) { r.count(std::string("cfg:success, family ") + FMT[i].family, g_ok_by_fmt[i]); r.count(std::string("cfg:success, format ") + FMT[i].id, g_ok_by_fmt[i]); g_ok_by_fmt[i] = 0; }
+	for (int p = 0; p < NPOS; ++p) for (int k = 0; k < 2; ++k) if (g_long[p][k]) { r.count(std::string("long:") + POSN[p] + (k ? " ~65536" : " ~256"), g_long[p][k]); g_long[p][k] = 0; }
+	for (int k = 0; k < 3; ++k) if (g_mut[k]) { r.count(fmt("mut:%d mutation(s)", k), g_mut[k]); g_mut[k] = 0; }
+	if (g_seed_ok) r.count("mut:seed document accepted", g_seed_ok); g_seed_ok = 0;
+	if (g_seed_refused) r.count("mut:seed document refused (not flagged)", g_seed_refused); g_seed_refused = 0;
+}
 void mc_explore(Run &r, const std::string &job)
 {
 	for (const char *k : required) r.require(k);
 	Job j = parse_job(r, job);
+	struct timespec t0, t1; clock_gettime(CLOCK_MONOTONIC, &t0);
 	dfs(r, [&](Ctx &x) { body(r, x, j); });
+	flush_counters(r);
+	clock_gettime(CLOCK_MONOTONIC, &t1);
+	if (getenv("C08_TIME")) fprintf(stderr, "TIME %s %.2f s, %llu cases, %llu parses\n", job.c_str(), (t1.tv_sec - t0.tv_sec) + 1e-9 * (t1.tv_nsec - t0.tv_nsec), (unsigned long long) r.states, (unsigned long long) r.transitions);
 }
 void mc_replay(Run &r, const std::string &job, const Vec &v)
 {
